@@ -56,6 +56,24 @@ def parseAEv (id : Nat) (tok : String) : Option AEv :=
 def parseEvs (s : String) : Option (List Ev) :=
   (enum (items s)).mapM fun (i, t) => (parseEv i t).map (·.1)
 
+/-- a duration: `<ms>` (`Duration::from_millis`) or `u<micros>` (`Duration::from_micros`); every component reads it with
+`as_millis()`, which truncates — the model works in whole milliseconds -/
+def parseDur (s : String) : Option Nat :=
+  if s.startsWith "u" then (String.ofList (s.toList.drop 1)).toNat?.map (· / 1000) else s.toNat?
+
+/-- the numeric view of a field over the extended reals (`XV` cases) -/
+def parseXVal (s : String) : Option (Option XNum) :=
+  if s = "s" ∨ s = "m" then some none
+  else if s = "p" then some (some .pinf) else if s = "q" then some (some .ninf) else if s = "z" then some (some .nan)
+  else if s = "M" then some (some .hi) else if s = "L" then some (some .lo)
+  else if s.startsWith "n" ∨ s.startsWith "i" then (String.ofList (s.toList.drop 1)).toInt?.map (fun i => some (.fin i))
+  else none
+
+def parseXEv (tok : String) : Option (Option XNum) :=
+  match tok.splitOn ":" with
+  | [_, v] => parseXVal v
+  | _ => none
+
 def parseWType (s : String) : Option WType :=
   if s = "S" then some .sliding else if s = "T" then some .tumbling else if s = "N" then some .session else none
 
@@ -81,27 +99,29 @@ inductive Case where
   | wss (t : WType) (d cap : Nat) (es : List Ev)          -- WindowedStream::new, sliding / session configuration
   | ans (timeout cap : Nat) (ops : List ANOp)             -- StreamAlphaNode with a session window
   | ag (es : List AEv)                                    -- First/Last/CountDistinct/CountBy/Percentile/StdDev of one window
+  | xv (vs : List (Option XNum))                          -- min/max/sum of one window whose numeric fields range over all of f64
 
 def parseCase (line : String) : Option Case :=
   match tokens line with
   | ["TW", t, d, s, c, ops] => do
     let t ← parseWType t
     let ops ← (enum (items ops)).mapM fun (i, x) => parseTWOp i x
-    pure (.tw t (← d.toNat?) (← s.toNat?) (← c.toNat?) ops)
+    pure (.tw t (← parseDur d) (← s.toNat?) (← c.toNat?) ops)
   | ["WM", t, d, c, m, es] => do
-    pure (.wm (← parseWType t) (← d.toNat?) (← c.toNat?) (← m.toNat?) (← parseEvs es))
+    pure (.wm (← parseWType t) (← parseDur d) (← c.toNat?) (← m.toNat?) (← parseEvs es))
   | ["WS", "T", d, c, es] => do
-    pure (.ws (← d.toNat?) (← c.toNat?) (← parseEvs es))
+    pure (.ws (← parseDur d) (← c.toNat?) (← parseEvs es))
   | ["WS", t, d, c, es] => do
     let t ← parseWType t
-    pure (.wss t (← d.toNat?) (← c.toNat?) (← parseEvs es))
+    pure (.wss t (← parseDur d) (← c.toNat?) (← parseEvs es))
   | ["AG", es] => do
     pure (.ag (← (enum (items es)).mapM fun (i, t) => parseAEv i t))
+  | ["XV", k, es] => if k = "r" ∨ k = "a" then (items es).mapM parseXEv |>.map .xv else none
   | ["AN", "E", d, c, ops] => do
     let ops ← (enum (items ops)).mapM fun (i, x) => parseANOp i x
-    pure (.ans (← d.toNat?) (← c.toNat?) ops)
+    pure (.ans (← parseDur d) (← c.toNat?) ops)
   | ["AN", w, d, c, ops] => do
-    let d ← d.toNat?
+    let d ← parseDur d
     let w ← (if w = "-" then some AWin.none else if w = "S" then some (AWin.sliding d)
              else if w = "T" then some (AWin.tumbling d) else none)
     let ops ← (enum (items ops)).mapM fun (i, x) => parseANOp i x
@@ -130,6 +150,22 @@ def showAgg2 (a : Agg2) : String :=
   let cb := if a.countBy.isEmpty then "_" else ",".intercalate (a.countBy.map fun p => s!"{p.1}={p.2}")
   s!"{showON a.first}/{showON a.last}/{a.distinct}/{cb}/{",".intercalate (a.pcts.map showOI)}/{if a.stdDefined then "+" else "-"}"
 
+def showX : XNum → String
+  | .ninf => "q" | .lo => "L" | .fin i => toString i | .hi => "M" | .pinf => "p" | .nan => "z"
+def showOX (x : Option XNum) : String := match x with | none => "-" | some v => showX v
+def parseOX (s : String) : Option (Option XNum) :=
+  if s = "-" then some none else if s = "q" then some (some .ninf) else if s = "L" then some (some .lo)
+  else if s = "M" then some (some .hi) else if s = "p" then some (some .pinf) else if s = "z" then some (some .nan)
+  else s.toInt?.map fun i => some (.fin i)
+
+/-- `T:min,max,sum/A:min,max/O:min,max`; `n` = not observed (sum with NaN / ±f64::MAX present: order dependent;
+operators::Min/Max with a NaN present: they compare with `partial_cmp().unwrap()`) -/
+def showXV (vs : List (Option XNum)) : String :=
+  let mm := s!"{showOX (xMin vs)},{showOX (xMax vs)}"
+  let sum := if xSumComparable vs then showX (xSum vs) else "n"
+  let o := if (vs.filterMap id).contains .nan then "n,n" else mm
+  s!"{mm},{sum}/{mm}/{o}"
+
 def modelLine (line : String) : String :=
   match parseCase line with
   | some (.tw t d s c ops) => joinSteps ((twTrace divBits (TW.new t d s c) ops).map showTWObs)
@@ -152,6 +188,7 @@ def modelLine (line : String) : String :=
     joinSteps ((ansTrace { timeout := timeout, cap := c, events := [], last := none } ops).map
       fun o => s!"{b01 o.ret}/{showIds o.events}")
   | some (.ag es) => showAgg2 (aggregate2 es)
+  | some (.xv vs) => showXV vs
   | none => "bad-case"
 
 -- ---------------------------------------------------------------- parsing observations (oracle mode)
@@ -379,6 +416,35 @@ def oracleCase (c : Case) (obs : String) : String :=
           else if a.stdDefined != decide (2 ≤ (avals es).length) then "stddev-defined"
           else "percentile"
         s!"fail ag-{why}"
+  | .xv vs =>
+    let pair (s : String) : Option (Option (Option XNum × Option XNum)) :=
+      match s.splitOn "," with
+      | ["n", "n"] => some none
+      | [a, b] => do pure (some (← parseOX a, ← parseOX b))
+      | _ => none
+    let hasNan := (vs.filterMap id).contains .nan
+    match obs.splitOn "/" with
+    | [t, a, o] =>
+      match t.splitOn "," with
+      | [tmn, tmx, tsum] =>
+        match pair s!"{tmn},{tmx}", pair a, pair o with
+        | some (some (mn, mx)), some (some (amn, amx)), some op =>
+          if !(xMinOk vs mn) then "fail xv-min"
+          else if !(xMaxOk vs mx) then "fail xv-max"
+          else if !(xMinOk vs amn && xMaxOk vs amx) then "fail xv-aggregator-min-max"
+          else if !(match op with | some (omn, omx) => xMinOk vs omn && xMaxOk vs omx | none => hasNan) then "fail xv-operators-min-max"
+          else if !(if xSumComparable vs then tsum = showX (xSum vs) else tsum = "n") then "fail xv-sum"
+          else
+            let v := vs.filterMap id
+            joinSp (["ok", "XV", s!"len{vs.length}"]
+              ++ (if v.contains .pinf || v.contains .ninf then ["infinite"] else [])
+              ++ (if hasNan then ["nan"] else [])
+              ++ (if v.contains .hi || v.contains .lo then ["f64-max"] else [])
+              ++ (if mn == some .ninf || mx == some .pinf then ["infinite-extreme"] else [])
+              ++ (if v.length ≥ 2 && (v.any fun x => match x with | .fin _ => false | _ => true) then ["nontrivial"] else []))
+        | _, _, _ => "fail xv-unparsable-observation"
+      | _ => "fail xv-unparsable-observation"
+    | _ => "fail xv-unparsable-observation"
   | .ans timeout cap ops =>
     let tbl := ops.map (·.e)
     match (steps obs).mapM (parseANObs tbl) with
